@@ -233,6 +233,11 @@ func (g *gen) genSchema() {
 		for i := 0; i < nk; i++ {
 			g.keys = append(g.keys, fmt.Sprintf("k%d", i))
 		}
+		// unusual input: the empty string is a valid key (own PRNG stream)
+		if g.cs != nil && NewRng(g.cs.Seed, uint64(g.cs.Run), 81).Chance(0.25) {
+			kr := NewRng(g.cs.Seed, uint64(g.cs.Run), 83)
+			g.keys[kr.Intn(len(g.keys))] = ""
+		}
 	}
 }
 
